@@ -5,7 +5,7 @@
    (writes never pass reads).  Everything else is watched by the canary
    harness; GC and checkptr are runtime observers. *)
 From Coq Require Import NArith List Bool.
-From GJ Require Import Base.Bytes Gen.Resets Model.Mem Model.StrDec Proofs.MemP.
+From GJ Require Import Base.Bytes Gen.Resets Model.Mem Model.StrDec Proofs.MemP Gen.SliceShape Model.SlicePool Proofs.SlicePoolP.
 Import ListNotations.
 Open Scope N_scope.
 
@@ -32,3 +32,17 @@ Print Assumptions C07_unescape_in_place_safe.
 
 Example C07_ex : array_writes true 16 3 4 1 = [(16, 3); (19, 3); (22, 3); (25, 3)].
 Proof. vm_compute. reflexivity. Qed.
+
+(* slice decoder: with the doubling read from slice.go, the slot of every element lies inside the working array
+   (for every starting capacity > 0, starting index within it, and number of elements) *)
+Theorem C07_slice_slots_inside_working_array : forall n cap idx, (0 < cap)%nat -> (idx <= cap)%nat ->
+  Forall (fun w => (fst w < snd w)%nat) (caps cap idx n).
+Proof. exact caps_in_bounds. Qed.
+Print Assumptions C07_slice_slots_inside_working_array.
+
+(* and no element of the result comes from anywhere but the document and the destination's own elements *)
+Theorem C07_slice_reads_only_destination_and_document : forall (A E : Type) (zero : A) (decE : E -> A -> option A) pool dst dcap es,
+  (length dst <= dcap)%nat ->
+  match decode A E zero decE slice_clears pool dst dcap es with Some (out, _) => Some out | None => None end
+  = spec A E zero decE dst es.
+Proof. intros. apply decode_is_spec; [intro i; reflexivity|assumption]. Qed.
